@@ -170,7 +170,7 @@ func Run(run *ev.Run) {
 		"nulls fields (JSON / untyped), permutes keys and injects unknown members of primitive / object / array shape; the observed error kind, the Fields of MissingRequiredFieldsError and the partially filled value are compared with the reference calculator. " +
 		"distinct = distinct (type, derivation, reader); non-trivial = derivation deletes or nulls at least one field or injects an unknown member")
 	run.Assume("field paths are rendered as dot-joined keys with [i] for array items (the format of the library's documented error text); the query reader is exercised as parameter 'v' of a two-parameter record so paths carry the prefix 'v.'",
-		"a position the decoder never touched holds the Go zero value of its generated type", "v2 generation only")
+		"a position the decoder never touched holds the Go zero value of its generated type", "both generations: the root module through types-only bindings written by its own generator from the same schema sets")
 	rng := rand.New(rand.NewSource(run.Seed + 6))
 	perType := run.Pick(6, 40)
 	maxDerive := run.Pick(60, 400)
